@@ -2,6 +2,7 @@ package frugal
 
 import (
 	"context"
+	"errors"
 
 	"github.com/apache/thrift/lib/go/thrift"
 )
@@ -67,6 +68,12 @@ func (client *FStandardClient) Call(fctx FContext, method string, args, result t
 	resultTransport, err := client.transport.Request(fctx, payload)
 	if err != nil {
 		return err
+	}
+	if resultTransport == nil {
+		// The transport got an empty frame back, which is what a oneway
+		// request is answered with: there is no reply to decode.
+		return thrift.NewTProtocolExceptionWithType(thrift.INVALID_DATA,
+			errors.New("frugal: empty response to a two-way request"))
 	}
 	return client.processReply(ctx, fctx, method, result, resultTransport)
 }
